@@ -103,7 +103,8 @@ def run_tlc(workdir, module, cfg_text, env=None, workers=1, extra=None,
     if m:
         r.depth = int(m.group(1))
     r.prints = _prints(out)
-    m = re.search(r'Invariant (\S+) is violated', out)
+    m = re.search(r'Invariant (\S+) is violated', out) or \
+        re.search(r'The invariant of (\S+) is equal to FALSE', out)
     if m:
         r.violation = m.group(1)
         return r
